@@ -49,12 +49,24 @@ class Lock:
         self.f.close()
 
 
+def _limit_coq_memory():
+    # a runaway lia/nia must not take the machine down: 8 GB of address space per coqc/make process
+    import resource
+    soft, hard = resource.getrlimit(resource.RLIMIT_AS)
+    lim = 8 * 1024 ** 3
+    if hard == resource.RLIM_INFINITY or hard > lim:
+        resource.setrlimit(resource.RLIMIT_AS, (lim, hard))
+
+
 def run(cmd, timeout=600, cwd=None, env=None, input=None):
     """Run a command, return (rc, stdout+stderr)."""
+    pre = None
+    if not isinstance(cmd, str) and cmd and os.path.basename(cmd[0]) in ("coqc", "make", "coq_makefile", "coqchk"):
+        pre = _limit_coq_memory
     try:
         p = subprocess.run(cmd, cwd=cwd, env=env, input=input, timeout=timeout,
                            stdout=subprocess.PIPE, stderr=subprocess.STDOUT,
-                           shell=isinstance(cmd, str))
+                           shell=isinstance(cmd, str), preexec_fn=pre)
         return p.returncode, p.stdout.decode("utf-8", "replace")
     except subprocess.TimeoutExpired as e:
         return 124, (e.stdout or b"").decode("utf-8", "replace") + "\nTIMEOUT"
@@ -71,7 +83,7 @@ def _native_one(name, sanitize):
     flags = ["-shared", "-fPIC", "-O2", "-fwrapv", "-w"]
     if sanitize:
         flags = ["-shared", "-fPIC", "-O1", "-g", "-fwrapv", "-w",
-                 "-fsanitize=address,undefined", "-fno-sanitize=shift-base",
+                 "-fsanitize=address,undefined", "-fno-sanitize=shift-base", "-fno-sanitize=alignment",
                  "-fno-omit-frame-pointer"]
     key = sha(open(src, "rb").read() + " ".join(flags).encode())[:24]
     d = os.path.join(BUILD, "native", key)
@@ -192,12 +204,14 @@ def _gen_cmd_v():
         txt += "From Pq Require Extract.%s.\n" % m
     txt += "Import ListNotations.\nOpen Scope string_scope.\n"
     txt += "Definition table : list (string * handler) :=\n  " + " ++\n  ".join("%s.table" % m for m in mods) + ".\n"
-    txt += """Definition run (s : sx) : sx :=
+    txt += """Definition pqref_main (s : sx) : sx :=
   match s with
   | SL (SB c :: args) =>
     match dispatch table c with Some h => h args | None => err "unknown command" end
   | _ => err "malformed command"
   end.
+(* older name, still used by generated ExtractAgrees.v files; not extracted (the entry point is pqref_main) *)
+Definition run (s : sx) : sx := pqref_main s.
 """
     p = os.path.join(d, "Cmd.v")
     if not os.path.exists(p) or open(p).read() != txt:
